@@ -24,9 +24,11 @@ import (
 	"go/parser"
 	"go/token"
 	"io"
+	"math"
 	"os"
 	"os/exec"
 	"path/filepath"
+	"reflect"
 	"runtime/metrics"
 	"sort"
 	"strconv"
@@ -743,6 +745,57 @@ func robustStream(r *Run) {
 		}
 	}
 
+	// (1b') Go method names as property names: a time.Time and a values.Range are structs to the evaluator, which
+	// calls a method of no arguments as a property ({{ t.Year }}, {{ (1..3).Len }}). Every exported method
+	// of both types, of every result shape (one result, value and error, two values, three values, none,
+	// with parameters), on times whose methods fail (MarshalJSON outside the years 0..9999) and ranges too long to
+	// become arrays, as a property, as an index, under a filter, as a loop collection and as a contains operand.
+	{
+		methodNames := exportedMethodNames(time.Time{}, values.NewRange(1, 2), &time.Time{})
+		r.Stats.Notes["method_names"] = fmt.Sprint(len(methodNames))
+		recvs := []*V{VTime(1577934245), VTime(0), VTime(253402300800), VTime(-62198755200), VPtr(VTime(1577934245)), VRange(1, 3), VRange(5, 1),
+			VRange(1, 9223372036854775807), VRange(-9223372036854775808, 9223372036854775807), VRange(1, 20000000), VRange(1, 4294967296),
+			VPtr(VRange(1, 3)), VDrop(VTime(1577934245)), VAnys(VTime(1577934245)), VStruct(Field{"Year", VInt(0, 1)}), VNilPtr()}
+		mforms := []string{"{{ a.N }}", "{{ a[n] }}", "{{ a.N.size }}|{{ a.N | json }}", "{% for x in a.N limit: 2 %}{{ x }},{% endfor %}",
+			"{% if a contains n %}T{% else %}F{% endif %}{% if a.N %}T{% else %}F{% endif %}", "{{ a | map: n | first }}", "{{ a.N.N }}{{ a.first.N }}"}
+		for _, n := range methodNames {
+			for _, f := range mforms {
+				src := strings.ReplaceAll(f, "N", n)
+				for _, a := range recvs {
+					run(plain, src, map[string]*V{"a": a, "n": VStr(n)}, "method-names")
+				}
+			}
+		}
+		for _, rg := range bRanges {
+			for _, tl := range []string{"{{ R.AsArray | size }}", "{{ R.Len }}|{{ R.AsArray.size }}", "{% for i in R.AsArray limit: 2 %}{{ i }}{% endfor %}"} {
+				if strings.Contains(rg, "999999") || strings.Contains(rg, "1000000") {
+					continue
+				}
+				run(plain, strings.ReplaceAll(tl, "R", rg), map[string]*V{}, "method-names")
+			}
+		}
+	}
+
+	// (1b'') maps whose keys are floats the lookup never finds (NaN != NaN): iterating, converting to an array, printing,
+	// indexing and comparing them reads entries that reflect reports as absent
+	{
+		nan := VFlt(1, math.NaN())
+		ms := []*V{VMap(TFlt(1), TAny, KV(nan, VInt(0, 1))), VMap(TFlt(1), TAny, KV(nan, VInt(0, 1)), KV(VFlt(1, 1.5), VStr("x"))),
+			VMap(TFlt(1), TInt(0), KV(nan, VInt(0, 1))), VMap(TAny, TAny, KV(nan, VNil()), KV(VStr("a"), VInt(0, 2))),
+			VMap(TFlt(1), TAny, KV(VFlt(1, math.Inf(1)), VInt(0, 1)), KV(VFlt(1, math.Copysign(0, -1)), VInt(0, 2))),
+			VAnys(VMap(TFlt(1), TAny, KV(nan, VInt(0, 1))))}
+		nforms := append([]string{"{% for p in a %}{{ p }}|{{ p[0] }}={{ p[1] }},{% endfor %}", "{{ a | first }}|{{ a | last }}|{{ a | size }}|{{ a.size }}",
+			"{{ a | join }}|{{ a | sort | join }}|{{ a | reverse | join }}|{{ a | uniq | join }}|{{ a | compact | join }}",
+			"{{ a | json }}|{{ a | inspect }}|{{ a }}", "{% if a == a %}T{% else %}F{% endif %}{% if a contains 1 %}T{% else %}F{% endif %}",
+			"{% tablerow p in a cols: 2 %}{{ p }}{% endtablerow %}", "{{ a[1.5] }}|{{ a[0] }}|{{ a | map: 'x' | join }}|{{ a | where: 'x' | size }}",
+			"{{ a | sort: 'x' | size }}|{{ a | sort_natural | size }}|{{ a | concat: a | size }}|{{ a | sum }}"}, forms1[:6]...)
+		for _, f := range nforms {
+			for _, a := range ms {
+				run(plain, f, map[string]*V{"a": a}, "nan-keys")
+			}
+		}
+	}
+
 	// (1c) times: {{ t }}, the date filter on times and on date strings, times inside containers (stream_filter_date.go)
 	for _, tc := range dateTemplateFamily() {
 		run(plain, tc.src, tc.env, "date-family")
@@ -863,6 +916,23 @@ func robustStream(r *Run) {
 		}
 	}
 	_ = time.Now
+}
+
+// exportedMethodNames: the exported method names of the given values' types (what reflect's MethodByName finds), sorted.
+func exportedMethodNames(xs ...any) []string {
+	seen := map[string]bool{}
+	for _, x := range xs {
+		t := reflect.TypeOf(x)
+		for i := 0; i < t.NumMethod(); i++ {
+			seen[t.Method(i).Name] = true
+		}
+	}
+	var out []string
+	for n := range seen {
+		out = append(out, n)
+	}
+	sort.Strings(out)
+	return out
 }
 
 // enumStrings2 calls f for every token sequence of length <= maxLen, in a fixed order.
